@@ -388,7 +388,19 @@ func c11Finish(tp *Tapes, sp *c11Spec) {
 					ref.Type = "inc"
 				}
 				ref.IfExists = true
-				ref.Name, _ = c11WriteName(g, sp, self, c11TargetPath(sp, "c/nope.tpl"), lazyRootedOnly)
+				nope := "c/nope.tpl"
+				if g.Draw(3) == 0 {
+					// the name of a directory that holds templates: a directory is not a template
+					for oi := n - 1; oi > i; oi-- {
+						if d := path.Dir(sp.Files[oi].Path); d != "." && d != "/" {
+							if _, clash := existing[normPath(d)]; !clash {
+								nope = d
+								break
+							}
+						}
+					}
+				}
+				ref.Name, _ = c11WriteName(g, sp, self, c11TargetPath(sp, nope), lazyRootedOnly)
 				if c11Relative(sp.Kind) && ref.Type == "inc" && g.Draw(2) == 0 {
 					// a decoy: the bare file name of a template that exists in ANOTHER directory;
 					// relative to this file it names nothing
